@@ -170,7 +170,7 @@ def check(pid, tier, replay_only=None):
     notes = []
     verus_results = []
     kani_results = {}
-    rlimit = cfg.get('rlimit', 60)
+    rlimit = cfg.get('rlimit', 100)
     try:
         # ---------------- Verus layer
         units = list(cfg.get('verus_units', []))
@@ -438,7 +438,7 @@ def build_evidence(pid, tier, seed, cfg, verus_results, kani_results, violations
             'trusted_base': cfg.get('trusted_base', []) + trusted,
             'explanation': cfg.get('explanation', ''),
             'functions_under_contract': fns,
-            'by_backend': {'verus-z3': {'queries': sum(v.get('verified', 0) + v.get('errors', 0) for v in verus_results), 'smt_ms': smt_ms, 'rlimit': cfg.get('rlimit', 60)},
+            'by_backend': {'verus-z3': {'queries': sum(v.get('verified', 0) + v.get('errors', 0) for v in verus_results), 'smt_ms': smt_ms, 'rlimit': cfg.get('rlimit', 100)},
                            'kani-cbmc-cadical': {'harnesses': len(kani_results), 'complete_harnesses': k_complete, 'complete_ok': k_complete_ok,
                                                  'solver_s': round(sum((x.get('time_s') or 0) for x in kani_results.values()), 1)}},
             'bounded_checks': [b for b in bounded if not (b['bound'] or '').startswith('complete')],
